@@ -10,4 +10,71 @@ var props = map[string]propDef{
 		Assume: []string{"sync.Mutex and sync.Cond are replaced by the simulated primitives of simrt/simsync (Signal wakes a tape-chosen waiter)", "interleavings are explored at synchronisation operations only", "porcupine v1.3.0; histories whose check exceeds 1 s real time are counted as unknown, never reported"},
 		Comps:  map[string]string{"util/queue.PriorityQueue": "real", "sync primitives": "simulated (simsync)", "db19 checker": "stub: one consumer task calling Get"},
 	},
+	"C18": {
+		ID: "C18", Harness: "h2alloc", Mode: "C18", Pkgs: []string{"db19/stor"},
+		QuickS: 40, ThoroughS: 900, Level: "exploration",
+		Rule: "each run: 2-6 allocator tasks perform <=60 Alloc(n) calls on the real Stor over a heap store with tape-chosen chunk size 64-4096, sizes biased to 1, chunk-1, chunk, chunk/2+-1, chunk/4+-1; the tape decides the interleaving at every atomic operation and at the extend lock. Non-trivial: at least 3 allocations succeeded and at least 2 chunks were used (extend ran). Distinct: run digest (scheduling decisions and returned offsets).",
+		Assume: []string{"sync/atomic operations are sequentially consistent scheduling points (simatomic); the extend lock is a simulated mutex", "heap store instead of mmap (chunk size is a knob so that chunk boundaries are crossed often)"},
+		Comps:  map[string]string{"db19/stor.Stor (Alloc, extend, Data, Size)": "real", "storage implementation": "real heapStor (in-memory chunks)", "sync/atomic, sync.Mutex": "simulated scheduling points"},
+	},
+	"C01": {
+		ID: "C01", Harness: "h3txn", Mode: "C01", Pkgs: dbPkgs,
+		QuickS: 60, ThoroughS: 1200, Recycle: 400, Level: "exploration",
+		Rule: "each run: tape-chosen schema family (A one table with key/index/unique; B composite key + key() table; C parent/child with block / cascade / cascade update foreign key; D two tables), 1-6 update clients x 1-5 transactions x 1-8 operations (lookup, forward/backward/partial scan, output, update, delete, think, abort/complete) over a 2-8 value key domain, 0-3 long-lived readers, optional admin client (index creation on a populated table, persist, full check), with MaxAge 3-20 ticks, persist interval 0.3-60 s, btree split 4-100, chunk size 16-128 KB, hash degraded to 64/16/6 bits; the tape decides every interleaving of clients, checker, merger and the 16 workers. Non-trivial: at least 2 commits were published and (some transaction committed after another transaction's commit was published since its snapshot, or at least 4 non-commit states (merges, persists, schema changes) were published). Distinct: run digest. Mix for this property: favours scans and small key domains.",
+		Assume: h3assume,
+		Comps: map[string]string{"db19 (Database, Check, CheckCo, tran, state, concur incl. 16 workers, meta, index overlay/ixbuf/btree, stor)": "real", "util/queue, util/ranges, util/ordset": "real", "dbms/query admin parser + DoAdmin": "real", "storage": "real heapStor (in memory)", "query engine / interpreter / triggers": "stub: MakeSuTran returns an empty SuTran; no Trigger_ globals", "sync, sync/atomic, channels, select, time, rand, maphash, log": "simulated seams (simrt)"},
+	},
+	"C02": {
+		ID: "C02", Harness: "h3txn", Mode: "C02", Pkgs: dbPkgs,
+		QuickS: 60, ThoroughS: 1200, Recycle: 400, Level: "exploration",
+		Rule: "each run: tape-chosen schema family (A one table with key/index/unique; B composite key + key() table; C parent/child with block / cascade / cascade update foreign key; D two tables), 1-6 update clients x 1-5 transactions x 1-8 operations (lookup, forward/backward/partial scan, output, update, delete, think, abort/complete) over a 2-8 value key domain, 0-3 long-lived readers, optional admin client (index creation on a populated table, persist, full check), with MaxAge 3-20 ticks, persist interval 0.3-60 s, btree split 4-100, chunk size 16-128 KB, hash degraded to 64/16/6 bits; the tape decides every interleaving of clients, checker, merger and the 16 workers. Non-trivial: at least 2 commits were published and (some transaction committed after another transaction's commit was published since its snapshot, or at least 4 non-commit states (merges, persists, schema changes) were published). Distinct: run digest. Mix for this property: 1-3 long lived readers.",
+		Assume: h3assume,
+		Comps: map[string]string{"db19 (Database, Check, CheckCo, tran, state, concur incl. 16 workers, meta, index overlay/ixbuf/btree, stor)": "real", "util/queue, util/ranges, util/ordset": "real", "dbms/query admin parser + DoAdmin": "real", "storage": "real heapStor (in memory)", "query engine / interpreter / triggers": "stub: MakeSuTran returns an empty SuTran; no Trigger_ globals", "sync, sync/atomic, channels, select, time, rand, maphash, log": "simulated seams (simrt)"},
+	},
+	"C03": {
+		ID: "C03", Harness: "h3txn", Mode: "C03", Pkgs: dbPkgs,
+		QuickS: 60, ThoroughS: 1200, Recycle: 400, Level: "exploration",
+		Rule: "each run: tape-chosen schema family (A one table with key/index/unique; B composite key + key() table; C parent/child with block / cascade / cascade update foreign key; D two tables), 1-6 update clients x 1-5 transactions x 1-8 operations (lookup, forward/backward/partial scan, output, update, delete, think, abort/complete) over a 2-8 value key domain, 0-3 long-lived readers, optional admin client (index creation on a populated table, persist, full check), with MaxAge 3-20 ticks, persist interval 0.3-60 s, btree split 4-100, chunk size 16-128 KB, hash degraded to 64/16/6 bits; the tape decides every interleaving of clients, checker, merger and the 16 workers. Non-trivial: at least 2 commits were published and (some transaction committed after another transaction's commit was published since its snapshot, or at least 4 non-commit states (merges, persists, schema changes) were published). Distinct: run digest. Mix for this property: more aborts, think times beyond MaxAge.",
+		Assume: h3assume,
+		Comps: map[string]string{"db19 (Database, Check, CheckCo, tran, state, concur incl. 16 workers, meta, index overlay/ixbuf/btree, stor)": "real", "util/queue, util/ranges, util/ordset": "real", "dbms/query admin parser + DoAdmin": "real", "storage": "real heapStor (in memory)", "query engine / interpreter / triggers": "stub: MakeSuTran returns an empty SuTran; no Trigger_ globals", "sync, sync/atomic, channels, select, time, rand, maphash, log": "simulated seams (simrt)"},
+	},
+	"C06": {
+		ID: "C06", Harness: "h3txn", Mode: "C06", Pkgs: dbPkgs,
+		QuickS: 60, ThoroughS: 1200, Recycle: 400, Level: "exploration",
+		Rule: "each run: tape-chosen schema family (A one table with key/index/unique; B composite key + key() table; C parent/child with block / cascade / cascade update foreign key; D two tables), 1-6 update clients x 1-5 transactions x 1-8 operations (lookup, forward/backward/partial scan, output, update, delete, think, abort/complete) over a 2-8 value key domain, 0-3 long-lived readers, optional admin client (index creation on a populated table, persist, full check), with MaxAge 3-20 ticks, persist interval 0.3-60 s, btree split 4-100, chunk size 16-128 KB, hash degraded to 64/16/6 bits; the tape decides every interleaving of clients, checker, merger and the 16 workers. Non-trivial: at least 2 commits were published and (some transaction committed after another transaction's commit was published since its snapshot, or at least 4 non-commit states (merges, persists, schema changes) were published). Distinct: run digest. Mix for this property: three-index tables, index creation, cascades.",
+		Assume: h3assume,
+		Comps: map[string]string{"db19 (Database, Check, CheckCo, tran, state, concur incl. 16 workers, meta, index overlay/ixbuf/btree, stor)": "real", "util/queue, util/ranges, util/ordset": "real", "dbms/query admin parser + DoAdmin": "real", "storage": "real heapStor (in memory)", "query engine / interpreter / triggers": "stub: MakeSuTran returns an empty SuTran; no Trigger_ globals", "sync, sync/atomic, channels, select, time, rand, maphash, log": "simulated seams (simrt)"},
+	},
+	"C07": {
+		ID: "C07", Harness: "h3txn", Mode: "C07", Pkgs: dbPkgs,
+		QuickS: 60, ThoroughS: 1200, Recycle: 400, Level: "exploration",
+		Rule: "each run: tape-chosen schema family (A one table with key/index/unique; B composite key + key() table; C parent/child with block / cascade / cascade update foreign key; D two tables), 1-6 update clients x 1-5 transactions x 1-8 operations (lookup, forward/backward/partial scan, output, update, delete, think, abort/complete) over a 2-8 value key domain, 0-3 long-lived readers, optional admin client (index creation on a populated table, persist, full check), with MaxAge 3-20 ticks, persist interval 0.3-60 s, btree split 4-100, chunk size 16-128 KB, hash degraded to 64/16/6 bits; the tape decides every interleaving of clients, checker, merger and the 16 workers. Non-trivial: at least 2 commits were published and (some transaction committed after another transaction's commit was published since its snapshot, or at least 4 non-commit states (merges, persists, schema changes) were published). Distinct: run digest. Mix for this property: collision mix on key and unique values.",
+		Assume: h3assume,
+		Comps: map[string]string{"db19 (Database, Check, CheckCo, tran, state, concur incl. 16 workers, meta, index overlay/ixbuf/btree, stor)": "real", "util/queue, util/ranges, util/ordset": "real", "dbms/query admin parser + DoAdmin": "real", "storage": "real heapStor (in memory)", "query engine / interpreter / triggers": "stub: MakeSuTran returns an empty SuTran; no Trigger_ globals", "sync, sync/atomic, channels, select, time, rand, maphash, log": "simulated seams (simrt)"},
+	},
+	"C08": {
+		ID: "C08", Harness: "h3txn", Mode: "C08", Pkgs: dbPkgs,
+		QuickS: 60, ThoroughS: 1200, Recycle: 400, Level: "exploration",
+		Rule: "each run: tape-chosen schema family (A one table with key/index/unique; B composite key + key() table; C parent/child with block / cascade / cascade update foreign key; D two tables), 1-6 update clients x 1-5 transactions x 1-8 operations (lookup, forward/backward/partial scan, output, update, delete, think, abort/complete) over a 2-8 value key domain, 0-3 long-lived readers, optional admin client (index creation on a populated table, persist, full check), with MaxAge 3-20 ticks, persist interval 0.3-60 s, btree split 4-100, chunk size 16-128 KB, hash degraded to 64/16/6 bits; the tape decides every interleaving of clients, checker, merger and the 16 workers. Non-trivial: at least 2 commits were published and (some transaction committed after another transaction's commit was published since its snapshot, or at least 4 non-commit states (merges, persists, schema changes) were published). Distinct: run digest. Mix for this property: parent/child schemas only.",
+		Assume: h3assume,
+		Comps: map[string]string{"db19 (Database, Check, CheckCo, tran, state, concur incl. 16 workers, meta, index overlay/ixbuf/btree, stor)": "real", "util/queue, util/ranges, util/ordset": "real", "dbms/query admin parser + DoAdmin": "real", "storage": "real heapStor (in memory)", "query engine / interpreter / triggers": "stub: MakeSuTran returns an empty SuTran; no Trigger_ globals", "sync, sync/atomic, channels, select, time, rand, maphash, log": "simulated seams (simrt)"},
+	},
+	"C16": {
+		ID: "C16", Harness: "h3txn", Mode: "C16", Pkgs: dbPkgs,
+		QuickS: 60, ThoroughS: 1200, Recycle: 400, Level: "exploration",
+		Rule: "each run: tape-chosen schema family (A one table with key/index/unique; B composite key + key() table; C parent/child with block / cascade / cascade update foreign key; D two tables), 1-6 update clients x 1-5 transactions x 1-8 operations (lookup, forward/backward/partial scan, output, update, delete, think, abort/complete) over a 2-8 value key domain, 0-3 long-lived readers, optional admin client (index creation on a populated table, persist, full check), with MaxAge 3-20 ticks, persist interval 0.3-60 s, btree split 4-100, chunk size 16-128 KB, hash degraded to 64/16/6 bits; the tape decides every interleaving of clients, checker, merger and the 16 workers. Non-trivial: at least 2 commits were published and (some transaction committed after another transaction's commit was published since its snapshot, or at least 4 non-commit states (merges, persists, schema changes) were published). Distinct: run digest. Mix for this property: tiny commits, persist interval <= 2 s, admin operations.",
+		Assume: h3assume,
+		Comps: map[string]string{"db19 (Database, Check, CheckCo, tran, state, concur incl. 16 workers, meta, index overlay/ixbuf/btree, stor)": "real", "util/queue, util/ranges, util/ordset": "real", "dbms/query admin parser + DoAdmin": "real", "storage": "real heapStor (in memory)", "query engine / interpreter / triggers": "stub: MakeSuTran returns an empty SuTran; no Trigger_ globals", "sync, sync/atomic, channels, select, time, rand, maphash, log": "simulated seams (simrt)"},
+	},
+	"H3ALL": {
+		ID: "H3ALL", Harness: "h3txn", Mode: "ALL", Pkgs: dbPkgs,
+		QuickS: 60, ThoroughS: 1200, Recycle: 400, Level: "exploration",
+		Rule: "development: all H3 oracles", Assume: h3assume,
+	},
+}
+
+var h3assume = []string{
+	"interleavings are explored at synchronisation operations (mutex, atomics, channels, select, timers), not below",
+	"the reference model (maps of rows with the documented key / unique / foreign key rules) is trusted; index keys are computed with gSuneido's own ixkey.Spec.Key",
+	"heap store (no mmap file) in this harness; no query engine or interpreter (triggers find no Trigger_ global)",
 }
